@@ -11,6 +11,7 @@ from ..util import as_list
 
 IMPORTS = ('phylib.io.array',)
 DTYPES = (np.int32, np.int64, np.uint16, np.uint32)
+UPSTREAM_TESTS = ('phylib/io/tests/test_array.py', 'phylib/io/tests/test_traces.py', 'phylib/stats/tests/test_clusters.py')
 
 
 def run_groups(v, ids, dtype):
@@ -160,6 +161,14 @@ def run(ctx):
             r = recs[rid - 1]
             ctx.violation('trace', 'recorded output rejected by the specification: clause %s (n=%d)'
                           % (clause, len(r.get('v', r.get('sc')))), dict(record=r, clause=clause))
+    # U: the calls the repository's own tests make into the utilities, judged by the same predicates
+    up = ctx.upstream(UPSTREAM_TESTS, 'Clusters')
+    if up:
+        for rid, clause in ctx.validate('Trace_Clusters', 'Trace_Clusters.cfg', up, timeout=2400,
+                                        note='calls recorded from the repository\'s own tests'):
+            r = up[rid - 1]
+            ctx.violation('upstream', 'a call made by %s is rejected by the specification: clause %s'
+                          % (r.get('test'), clause), dict(record=r, clause=clause))
 
 
 def replay(ctx, doc):
